@@ -64,6 +64,23 @@ fn alphabet_ext(w: &[i32]) -> Vec<i32> {
     out
 }
 
+/// `BigEndian<T>` compares exactly like `T`
+fn be_ord<T: Scalar + Copy + Ord>(x: T, y: T) -> bool
+where
+    T::Raw: Eq,
+{
+    let (bx, by): (BigEndian<T>, BigEndian<T>) = (x.into(), y.into());
+    let want = x.cmp(&y);
+    bx.cmp(&by) == want
+        && bx.partial_cmp(&by) == Some(want)
+        && (bx < by) == (x < y)
+        && (bx >= by) == (x >= y)
+        && (bx == by) == (x == y)
+        && (bx == y) == (x == y)
+        && bx.max(by).get() == x.max(y)
+        && bx.min(by).get() == x.min(y)
+}
+
 /// round(num/den) half away from zero, exact
 fn div_round_haz(num: i128, den: i128) -> i128 {
     assert!(den != 0);
@@ -123,7 +140,7 @@ fn replay_case(run: &Run, case: &Value) {
     let b = case["b"].as_i64().unwrap_or(0) as i32;
     let c = case["c"].as_i64().unwrap_or(0) as i32;
     match op {
-        "mul" | "div" => check_binary(run, a, b, &mut None),
+        "mul" | "div" | "be_ord" | "cmp" | "cmp16" | "cmp24" | "cmp26" | "cmp_tag" | "cmp_version" | "cmp_offset32" | "cmp_glyphid" | "cmp_ldt" => check_binary(run, a, b, &mut None),
         "mul_div" | "mul_div_26_6" => check_ternary(run, a, b, c, &mut None),
         "unary32" => {
             let mut l = Local { all: HashSet::new(), nontrivial: HashSet::new() };
@@ -279,6 +296,49 @@ fn check_binary(run: &Run, a: i32, b: i32, local: &mut Option<&mut Local>) {
             || Int24::new(((xa << 8) as i32) >> 8).cmp(&Int24::new(((xb << 8) as i32) >> 8)) != (((xa << 8) as i32) >> 8).cmp(&(((xb << 8) as i32) >> 8))
         {
             run.violation("24-bit type cmp differs from value ordering", "", json!({"op":"cmp24","a":a,"b":b}));
+        }
+    }
+    // BigEndian<T> (the in-table representation) must order, and test equality, exactly as T does: cmp,
+    // partial_cmp, the comparison operators and max/min all decode first
+    {
+        let (ua, ub) = (a as u32, b as u32);
+        let (sa, sb) = (a as u16, b as u16);
+        let (xa, xb) = (ua & 0xFF_FFFF, ub & 0xFF_FFFF);
+        let (ia, ib) = (((xa << 8) as i32) >> 8, ((xb << 8) as i32) >> 8);
+        let (la, lb) = (((a as i64) << 24) ^ (b as i64 & 0xFF), ((b as i64) << 24) ^ (a as i64 & 0xFF));
+        let bad = [
+            (be_ord(a, b), "i32"),
+            (be_ord(ua, ub), "u32"),
+            (be_ord(fa, fb), "Fixed"),
+            (be_ord(Tag::from_u32(ua), Tag::from_u32(ub)), "Tag"),
+            (be_ord(Version16Dot16::from_raw(ua.to_be_bytes()), Version16Dot16::from_raw(ub.to_be_bytes())), "Version16Dot16"),
+            (be_ord(Offset32::new(ua), Offset32::new(ub)), "Offset32"),
+            (be_ord(LongDateTime::new(la), LongDateTime::new(lb)), "LongDateTime"),
+            (be_ord(la, lb), "i64"),
+            (be_ord(sa, sb), "u16"),
+            (be_ord(sa as i16, sb as i16), "i16"),
+            (be_ord(sa as u8, sb as u8), "u8"),
+            (be_ord(sa as i8, sb as i8), "i8"),
+            (be_ord(GlyphId16::new(sa), GlyphId16::new(sb)), "GlyphId16"),
+            (be_ord(NameId::new(sa), NameId::new(sb)), "NameId"),
+            (be_ord(Offset16::new(sa), Offset16::new(sb)), "Offset16"),
+            (be_ord(UfWord::new(sa), UfWord::new(sb)), "UfWord"),
+            (be_ord(FWord::new(sa as i16), FWord::new(sb as i16)), "FWord"),
+            (be_ord(F2Dot14::from_bits(sa as i16), F2Dot14::from_bits(sb as i16)), "F2Dot14"),
+            (be_ord(F4Dot12::from_bits(sa as i16), F4Dot12::from_bits(sb as i16)), "F4Dot12"),
+            (be_ord(F6Dot10::from_bits(sa as i16), F6Dot10::from_bits(sb as i16)), "F6Dot10"),
+            (be_ord(Uint24::new(xa), Uint24::new(xb)), "Uint24"),
+            (be_ord(Int24::new(ia), Int24::new(ib)), "Int24"),
+            (be_ord(Offset24::new(Uint24::new(xa)), Offset24::new(Uint24::new(xb))), "Offset24"),
+        ];
+        for (ok, name) in bad {
+            if !ok {
+                run.violation(
+                    &format!("BigEndian<{name}> ordering/equality differs from {name}'s"),
+                    &format!("operands derived from a={a:#x} b={b:#x}"),
+                    json!({"op":"be_ord","type":name,"a":a,"b":b}),
+                );
+            }
         }
     }
     let f26a = F26Dot6::from_bits(a);
